@@ -97,5 +97,7 @@ Definition findings : list finding := [
   (("util.PidLoop.integral", KControl, KControl), 86);
   (("util.PidLoop.integral", KControl, KApi), 87);
   (("util.PidLoop.lastTime", KControl, KControl), 88);
-  (("util.PidLoop.lastTime", KControl, KApi), 89)
+  (("util.PidLoop.lastTime", KControl, KApi), 89);
+  (("fans.HwMonFan.FanCurveData*", KPrelude, KApi), 90);
+  (("fans.HwMonFan.FanCurveData*[]", KPrelude, KApi), 91)
 ].
